@@ -155,6 +155,16 @@ def run(ck):
     aliased_lists(ck, "C08.12")
     ck.clause("C08.14", "a record keeps the resolver's segments in the resolver's order (the join works on segments[0] of its parts)")
     record_segments_as_resolved(ck, "C08.14")
+    ck.clause("C08.15", "the conflict region of a join is found by comparing label coordinates (as C15.7 / C11.6): label numbers descend "
+                        "along a reverse-strand query, so an order by number makes both parts of a '-' join conflict entirely and one is dropped")
+    from .c15 import comparators as _cmp08
+    from .c11 import position_order as _po08
+    _cmp08(ck, "C08.15")
+    _po08(ck, "C08.15")
+    ck.clause("C08.16", "the two parts of a join share one coordinate frame: second-pass fragments are aligned as they were cut - not "
+                        "trimmed or rebuilt (as C02.4)")
+    from .c02 import fragments_reach_second_pass as _frsp08
+    _frsp08(ck, "C08.16")
     # argument roles in the multi-pass coordinator (reference / query lists are both List[OpticalMap]: an exchange runs)
     ck.clause("C08.9", "argument roles in the multi-pass coordinator: reference and query arguments are not exchanged")
     from ..rules import role as R
